@@ -233,6 +233,17 @@ StylesheetRoot::process(
 
     executionContext.setRootDocument(sourceTree);
 
+    // The initial current node list consists of just the root node, so
+    // position() and last() are 1 in top-level variables and parameters,
+    // and in the template that is instantiated for the root node.
+    typedef StylesheetExecutionContext::BorrowReturnMutableNodeRefList  BorrowReturnMutableNodeRefList;
+
+    BorrowReturnMutableNodeRefList  theRootNodeList(executionContext);
+
+    theRootNodeList->addNode(sourceTree);
+
+    executionContext.pushContextNodeList(*theRootNodeList);
+
 #if defined(XALAN_RECURSIVE_STYLESHEET_EXECUTION)
     typedef StylesheetExecutionContext::PushAndPopContextMarker PushAndPopContextMarker;
     typedef StylesheetExecutionContext::PushAndPopElementFrame  PushAndPopElementFrame;
@@ -263,22 +274,9 @@ StylesheetRoot::process(
 
     // Output the action of the found root rule.  All processing
     // occurs from here.
-    {
-        // The initial current node list consists of just the root
-        // node, so position() and last() are 1 in the template that
-        // is instantiated for it.
-        typedef StylesheetExecutionContext::BorrowReturnMutableNodeRefList  BorrowReturnMutableNodeRefList;
+    rootRule->execute(executionContext);
 
-        BorrowReturnMutableNodeRefList  theRootNodeList(executionContext);
-
-        theRootNodeList->addNode(sourceTree);
-
-        const XPathExecutionContext::ContextNodeListPushAndPop  theContextNodeListPushAndPop(
-                executionContext,
-                *theRootNodeList);
-
-        rootRule->execute(executionContext);
-    }
+    executionContext.popContextNodeList();
 
     // At this point, anything transient during the tranformation
     // may have been deleted, so we may not refer to anything the
